@@ -10,3 +10,4 @@ from . import enc  # noqa: F401
 from . import hexary  # noqa: F401
 from . import trav  # noqa: F401
 from . import helpers  # noqa: F401
+from . import hextab  # noqa: F401
